@@ -326,6 +326,16 @@ func createWriterWithCtx(obs kanzi.OutputBitStream, ctx map[string]any) (*Writer
 		return nil, &IOError{msg: err.Error(), code: kanzi.ERR_INVALID_PARAM}
 	}
 
+	// Codec names are case insensitive but the codecs select their variants by comparing
+	// the context entries with the canonical names (as rebuilt by the reader from the header).
+	if ctx["entropy"], err = entropy.GetName(this.entropyType); err != nil {
+		return nil, &IOError{msg: err.Error(), code: kanzi.ERR_INVALID_PARAM}
+	}
+
+	if ctx["transform"], err = transform.GetName(this.transformType); err != nil {
+		return nil, &IOError{msg: err.Error(), code: kanzi.ERR_INVALID_PARAM}
+	}
+
 	this.blockSize = int(bSize)
 	this.available = 0
 	nbBlocks := 0
@@ -1254,6 +1264,11 @@ func (this *Reader) validateHeaderless() error {
 		if err != nil {
 			return &IOError{msg: err.Error(), code: kanzi.ERR_INVALID_PARAM}
 		}
+
+		// Use the canonical name (see createWriterWithCtx)
+		if this.ctx["entropy"], err = entropy.GetName(this.entropyType); err != nil {
+			return &IOError{msg: err.Error(), code: kanzi.ERR_INVALID_PARAM}
+		}
 	} else {
 		return &IOError{msg: "Missing entropy in headerless mode", code: kanzi.ERR_MISSING_PARAM}
 	}
@@ -1268,6 +1283,10 @@ func (this *Reader) validateHeaderless() error {
 		this.transformType, err = transform.GetType(tName)
 
 		if err != nil {
+			return &IOError{msg: err.Error(), code: kanzi.ERR_INVALID_PARAM}
+		}
+
+		if this.ctx["transform"], err = transform.GetName(this.transformType); err != nil {
 			return &IOError{msg: err.Error(), code: kanzi.ERR_INVALID_PARAM}
 		}
 	} else {
